@@ -7,7 +7,7 @@
    differs from the amount's (exchange() then leaves the balance alone); two_entries: the
    balance has exactly two commodity entries (the implied-rate branch, stated separately). *)
 From LedgerV Require Import Base.Prelude Base.Round Model.Amount Model.Xact
-  Proofs.AmountProofs Proofs.XactProofs Proofs.GainLossProofs Proofs.VirtualProofs Gen.SourceGuards Model.PostLine Proofs.PostLineProofs Gen.StatusOfCount Proofs.ErrorsProofs.
+  Proofs.AmountProofs Proofs.XactProofs Proofs.GainLossProofs Proofs.VirtualProofs Gen.SourceGuards Model.PostLine Proofs.PostLineProofs Gen.StatusOfCount Proofs.ErrorsProofs Proofs.OnlyVirtualProofs.
 From Coq Require Import Qabs.
 Local Open Scope Q_scope.
 
@@ -231,3 +231,60 @@ Print Assumptions refused_transactions_give_a_nonzero_status.
 Theorem model_transcribes_current_source : forallb (fun b => b) src_guards_C01 = true.
 Proof. vm_compute. reflexivity. Qed.
 Print Assumptions model_transcribes_current_source.
+
+(* ROUND 10 (own work).  THE STATE FLAG OF A POSTING LINE (`* Account  $5`, `!Account  $5`; textual.cc parse_post, `// Parse the
+   state flag`): Model/PostLine.v `strip_state` / `read_post_line` transcribe it; the driver reads every written posting
+   line through `read_post_line`.  A flag, ANY white space after it (none included), then the posting: the flag is read
+   and account, kind and amount text are those of the line without it - for every line and every run of white space *)
+Theorem posting_state_flag_is_read_and_dropped : forall m ws line,
+  is_marker m = true -> forallb is_ws ws = true -> skip_ws line = line ->
+  read_post_line (m :: ws ++ line) = (state_of_marker m, split_post_line line).
+Proof. exact read_post_line_marked. Qed.
+Print Assumptions posting_state_flag_is_read_and_dropped.
+
+Theorem posting_without_state_flag_read_as_before : forall ind c t,
+  forallb is_ws ind = true -> is_ws c = false -> is_marker c = false ->
+  read_post_line (ind ++ c :: t) = (SUncleared, split_post_line (c :: t)).
+Proof. exact read_post_line_unmarked. Qed.
+Print Assumptions posting_without_state_flag_read_as_before.
+
+(* cleared / pending is irrelevant for the balance: what finalize is given (account, kind, amount text) is the same *)
+Theorem posting_state_flag_changes_nothing_the_balance_is_made_of : forall m ws line,
+  is_marker m = true -> forallb is_ws ws = true -> skip_ws line = line ->
+  (forall c t, line = c :: t -> is_marker c = false) ->
+  snd (read_post_line (m :: ws ++ line)) = snd (read_post_line line).
+Proof. exact state_flag_changes_nothing_read. Qed.
+Print Assumptions posting_state_flag_changes_nothing_the_balance_is_made_of.
+
+(* ONE flag only: in `* ! A:B  $5` the second flag is part of the account name *)
+Example ex_posting_state_flags :
+  let a := [65; 58; 66]%Z in
+  read_post_line ([STAR; SP] ++ a ++ [SP; SP; 36; 53]%Z) = (SCleared, ((KReal, a), Some [36; 53]%Z)) /\
+  read_post_line ([BANG] ++ [40]%Z ++ a ++ [41; TAB; 36; 53]%Z) = (SPending, ((KVirtual, a), Some [36; 53]%Z)) /\
+  read_post_line ([STAR; SP; BANG; SP] ++ a ++ [SP; SP; 36; 53]%Z) = (SCleared, ((KReal, [BANG; SP] ++ a), Some [36; 53]%Z)) /\
+  read_post_line (a ++ [SP; SP; 36; 53]%Z) = (SUncleared, ((KReal, a), Some [36; 53]%Z)).
+Proof. exact ex_state_flags. Qed.
+
+(* A TRANSACTION NONE OF WHOSE POSTINGS HAS TO BALANCE (only (virtual) postings) is accepted unchanged whatever its
+   amounts are, with or without a bucket account, for every pool and every number of postings: every loop of finalize
+   skips its postings and the balance stays null *)
+Theorem only_virtual_postings_always_accepted : forall ord cp bucket ps,
+  none_must_balance ps -> wf_costs ps -> ps <> [] -> all_have_amounts ps ->
+  finalize ord cp bucket ps = Ok (Accepted ps).
+Proof. exact only_virtual_accepted. Qed.
+Print Assumptions only_virtual_postings_always_accepted.
+
+Example ex_only_virtual_postings :
+  let usd q := mkAmt q 2 false (Some [36%Z]) in
+  let ps := [mkPost [86%Z] PVirtual (Some (usd 100)) None None false false false;
+             mkPost [87%Z] PVirtual (Some (usd 7)) None None false false false] in
+  none_must_balance ps /\ wf_costs ps /\ ps <> [] /\ all_have_amounts ps /\
+  finalize false (fun _ => 2%Z) (Some [66%Z]) ps = Ok (Accepted ps).
+Proof.
+  cbv zeta. split; [|split; [|split; [|split]]].
+  - intros p [<-|[<-|[]]]; reflexivity.
+  - intros p [<-|[<-|[]]]; split; reflexivity.
+  - discriminate.
+  - intros p [<-|[<-|[]]]; discriminate.
+  - vm_compute. reflexivity.
+Qed.
